@@ -210,6 +210,17 @@ OPS = {
     "hazmat.newton_refine_triangle": lambda n, d, x, y, s, t: list(hz_ti.newton_refine(n, d, x, y, s, t)),
     "shim.locate_point_triangle": lambda n, d, x, y: _triangle_intersection.locate_point(n, d, x, y),
     "hazmat.locate_point_triangle": lambda n, d, x, y: hz_ti.locate_point(n, d, x, y),
+    # ---- compiled workspaces (speedup configuration only)
+    "speedup.curve_intersections": lambda a, b, allow=True: list(_speedup.curve_intersections(a, b, allow_resize=bool(allow))),
+    "speedup.curves_workspace_size": lambda: int(_speedup.curves_workspace_size()),
+    "speedup.reset_curves_workspace": lambda n: _speedup.reset_curves_workspace(int(n)),
+    "speedup.free_curve_intersections_workspace": lambda: _speedup.free_curve_intersections_workspace(),
+    "speedup.triangle_workspace_sizes": lambda: list(_speedup.triangle_workspace_sizes()),
+    "speedup.reset_triangle_workspaces": lambda a=-1, b=-1: _speedup.reset_triangle_workspaces(segment_ends_size=int(a), segments_size=int(b)),
+    "Triangle.intersect_summary": lambda n1, n2: _tri_isect_summary(n1, n2),
+    "Curve.from_presentation": lambda n, s: bezier.Curve.from_nodes(n).evaluate(s),
+    "Curve.intersect_presentation": lambda n1, n2: bezier.Curve.from_nodes(n1).intersect(bezier.Curve.from_nodes(n2)),
+    "Triangle.edges_twice": lambda n: _edges_twice(n),
     # ---- algebraic
     "hazmat.alg_evaluate": lambda n, x, y: hz_alg.evaluate(n, x, y),
     "hazmat.alg_to_power_basis": lambda n1, n2: hz_alg.to_power_basis(n1, n2),
@@ -220,6 +231,27 @@ OPS = {
     "hazmat.alg_bernstein_companion": lambda c: list(hz_alg.bernstein_companion(c)),
     "hazmat.alg_normalize_polynomial": lambda c: hz_alg.normalize_polynomial(c),
 }
+
+
+def _tri_isect_summary(n1, n2):
+    res = tri(n1).intersect(tri(n2))
+    out = []
+    for r in res:
+        if isinstance(r, bezier.Triangle):
+            out.append(["triangle", r.nodes])
+        else:
+            out.append(["polygon", float(r.area), [e.nodes for e in r._edges]])
+    return out
+
+
+def _edges_twice(n):
+    t = tri(n)
+    e1 = [e.nodes.copy() for e in t.edges]
+    # mutate what was handed out, then ask again: the cache must not be affected
+    for e in t.edges:
+        e.nodes[:, 0] += 1.0
+    e2 = [e.nodes.copy() for e in t.edges]
+    return [e1, e2]
 
 
 def _add_int(s, t, ints):
